@@ -5,7 +5,7 @@ import sys
 
 from vlib import framework as fw
 
-RULE = ("table construction (LALR / SLR without strategies, LALR with prefer-shifts; serialised states + conflict lists) "
+RULE = ("table construction (LALR / SLR without strategies, LALR with prefer-shifts; serialised states + the S/R and R/R conflict lists in the order the table presents them) "
         "for every {n}-th grammar of Gamma(3, 2) + corpus + a modular grammar with equal local terminal names in two "
         "modules, and the index order of the trees of ambiguous forests (incl. consume_input=False and lexical "
         "ambiguity), each computed in a fresh interpreter under PYTHONHASHSEED in {seeds}; every digest must be equal "
